@@ -133,8 +133,33 @@ def check_case(ctx, case):
             ctx.fail(f"{model}.{entry}: generation raised {o.etype} on a valid parameter set", case,
                      {"msg": str(o.exc)[:300], "tb": (o.tb or "")[-600:]}, mech=mech)
             return
+        if not (isinstance(o.value, tuple) and len(o.value) == 2 and isinstance(o.value[0], dict)):
+            ctx.fail(f"{model}.{entry}(by_bloc=True) did not return (profiles by bloc, aggregate profile)", case, {"type": type(o.value).__name__})
+            return
         by_bloc, pp = o.value
         ctx.count("by_bloc_checked")
+        # the same request without by_bloc must return just the aggregate profile, equally well formed; under the same
+        # random stream it must be the same profile
+        random.seed(case["seed"])
+        np.random.seed(case["seed"] % (2 ** 32))
+        g2 = observe(bp.make_from_params, model, case["params"], extra, case.get("alpha", 1.0)) if case.get("from_params") else observe(bp.make, model, p, extra)
+        if g2.ok and not case.get("from_params"):
+            gg = g2.value
+            o2 = observe(gg.generate_profile_MCMC, N) if entry == "generate_profile_MCMC" else (
+                observe(gg.generate_profile, N, deterministic=False) if entry == "mcmc" else observe(gg.generate_profile, N))
+            ctx.count("plain_entry_checked")
+            if not o2.ok:
+                ctx.fail(f"{model}.{entry}: generation without by_bloc raised {o2.etype}", case, {"msg": str(o2.exc)[:200]})
+                return
+            if isinstance(o2.value, tuple) or not hasattr(o2.value, "ballots"):
+                ctx.fail(f"{model}.{entry}: without by_bloc the aggregate profile alone must be returned", case, {"type": type(o2.value).__name__})
+                return
+            if o2.value.total_ballot_wt != N:
+                ctx.fail(f"{model}.{entry}: without by_bloc total weight {o2.value.total_ballot_wt} != requested {N}", case, {})
+                return
+            if canon.multiset(o2.value.ballots) != canon.multiset(pp.ballots):
+                ctx.fail(f"{model}.{entry}: under the same random stream the profile differs with and without by_bloc", case, {})
+                return
     ctx.count("profiles_checked")
     declared = set(bp.all_cands(p)) if "slate_to_candidates" in p else set(p["candidates"])
     # ---- aggregate well-formedness
